@@ -649,7 +649,7 @@ func mParamOrFree(name string) VMatch {
 	return func(v ssa.Value) bool {
 		v = stripConv(v)
 		if pa, ok := v.(*ssa.Parameter); ok {
-			return pa.Name() == name
+			return paramRefName(pa) == name
 		}
 		if u, ok := v.(*ssa.UnOp); ok {
 			if fv, ok := u.X.(*ssa.FreeVar); ok {
